@@ -1,5 +1,8 @@
 //! Unified buffer manager implementation.
 
+#[cfg(grafeo_verif)]
+use crate::verif::fake_std as std;
+
 use super::consumer::MemoryConsumer;
 use super::grant::{GrantReleaser, MemoryGrant};
 use super::region::MemoryRegion;
